@@ -1058,6 +1058,8 @@ where
 
             // Check if the pool is paused and wait until it's resumed.
             pool.wait_paused().await;
+            #[cfg(feature = "verif_hooks")]
+            crate::verif::point("client.after_wait_paused").await;
 
             // Refresh pool information, something might have changed.
             pool = self.get_pool().await?;
@@ -1141,6 +1143,14 @@ where
             // cancel a query later.
             server.claim(self.process_id, self.secret_key);
             self.connected_to_server = true;
+            #[cfg(feature = "verif_hooks")]
+            crate::verif::event(
+                "checkout",
+                &format!(
+                    "\"cpid\":{},\"port\":{},\"pool\":\"{}\"",
+                    self.process_id, address.port, self.pool_name
+                ),
+            );
 
             // Update statistics
             self.stats.active();
@@ -1616,6 +1626,8 @@ where
 
             server.stats().idle();
             self.connected_to_server = false;
+            #[cfg(feature = "verif_hooks")]
+            crate::verif::point("client.before_release").await;
 
             self.release();
             self.stats.idle();
